@@ -8,7 +8,7 @@ os.environ["NAUNET_REPO"] = tree
 sys.path.insert(0, os.path.dirname(os.path.dirname(os.path.abspath(__file__))))
 from sa.check import run_rules
 from sa.core import load_known, VIOLATION, UNRECOGNISED, MISSING
-PROPS = [a for a in sys.argv[2:] if a.startswith("C")] or ["C01", "C02", "C03", "C04", "C05", "C06", "C07", "C09", "C10", "C11", "C12", "C13", "C14", "C15", "C16", "C17", "C18", "C19", "C20"]
+PROPS = [a for a in sys.argv[2:] if a.startswith("C")] or ["C01", "C02", "C03", "C04", "C05", "C06", "C07", "C08", "C09", "C10", "C11", "C12", "C13", "C14", "C15", "C16", "C17", "C18", "C19", "C20"]
 known = load_known()
 out = {}
 for p in PROPS:
